@@ -15,8 +15,8 @@
 (***************************************************************************)
 EXTENDS TraceBase, TLC, Json, IOUtils
 
-VARIABLES tid, l, pre, post, reqs, hk, v
-tvars == <<tid, l, pre, post, reqs, hk, v>>
+VARIABLES tid, l, pre, post, reqs, hk, mh, v
+tvars == <<tid, l, pre, post, reqs, hk, mh, v>>
 
 TraceLog_ == ndJsonDeserialize(IOEnv.TRACE_FILE)
 N == Len(TraceLog_)
@@ -41,7 +41,7 @@ SameBag(a, b) == AsBag(a) = AsBag(b)
 CallKey(e) == <<e.ev, e.typ, e.before, e.t, IF e.typ = "session" THEN e.s ELSE e.m>>
 IsPre(e) == e.before \/ (e.typ = "session")          \* after-session hooks run before the session-end record
 
-Init == /\ tid \in 1..N /\ l = 1 /\ pre = <<>> /\ post = <<>> /\ reqs = <<>> /\ hk = 0
+Init == /\ tid \in 1..N /\ l = 1 /\ pre = <<>> /\ post = <<>> /\ reqs = <<>> /\ hk = 0 /\ mh = <<>>
         /\ v = [C13 |-> "ok"]
 
 \* an occurrence: all after-calls owed by the previous one are in; its before-calls are exactly the expected
@@ -56,6 +56,9 @@ ReqOf(obj) == LET i == FirstIdx(reqs, LAMBDA r : r[1] = obj) IN IF i = 0 THEN -1
 Step ==
   /\ l <= Len(Ev) /\ l' = l + 1 /\ tid' = tid
   /\ hk' = IF Ev[l].k = "hook" THEN hk + 1 ELSE hk
+  \* market-step hook calls since the market's last clock step (judged again when its clock moves, see "tick")
+  /\ mh' = IF Ev[l].k = "hook" /\ Ev[l].typ = "market" THEN Append(mh, CallKey(Ev[l]))
+           ELSE IF Ev[l].k = "tick" THEN SelectSeq(mh, LAMBDA c : c[5] # Ev[l].m) ELSE mh
   /\ LET e == Ev[l]
          \* the same configuration and seed run WITHOUT a logger (Hd.twin): the k-th invocation is the same invocation
          twinBad == Hd.twin /\ (hk + 1 > Len(Hd.nolog) \/ Hd.nolog[hk + 1] # CallKey(e)) IN
@@ -109,6 +112,16 @@ Step ==
             /\ pre' = <<>>
             /\ post' = Calls(Expected("market", FALSE, e.t, e.m, TRUE), "market", FALSE, e.t, e.m)
             /\ UNCHANGED reqs
+       [] e.k = "tick" ->
+            \* the clock of market e.m moves to e.t: step e.t - 1 is over, whatever the logger was told about it - its
+            \* before-step and after-step hooks have been called (an occurrence marker that does not depend on log records)
+            LET owedB == Calls(Expected("market", TRUE, e.t - 1, e.m, TRUE), "market", TRUE, e.t - 1, e.m)
+                owedA == Calls(Expected("market", FALSE, e.t - 1, e.m, TRUE), "market", FALSE, e.t - 1, e.m)
+                cnt(seq, c) == Cardinality({i \in 1..Len(seq) : seq[i] = c})
+                lacks(owed) == \E i \in 1..Len(owed) : cnt(mh, owed[i]) < cnt(owed, owed[i]) IN
+            /\ v' = [v EXCEPT !.C13 = F(F(@, e.t >= 1 /\ lacks(owedB), "C13:before-step-hook-not-called-in-a-step"),
+                                         e.t >= 1 /\ lacks(owedA), "C13:after-step-hook-not-called-in-a-step")]
+            /\ UNCHANGED <<pre, post, reqs>>
        [] e.k = "simE" ->
             /\ v' = [Occ(v, <<>>, "simulation-end") EXCEPT
                        !.C13 = F(@, Hd.twin /\ hk # Len(Hd.nolog), "C13:more-hook-calls-without-logger")]
